@@ -552,6 +552,7 @@ pub fn shrink_violations(ctx: &Ctx, property: &str, out: &mut Outcome) {
 pub fn profile_values() -> Profile {
     let mut p = Profile::base("values");
     p.flatten_tower = 12;
+    p.cycles = 12;
     p
 }
 
